@@ -41,7 +41,7 @@ theorem segwitV0_precomputed {S : Bytes → Bytes} {tx : Tx} {prevouts : List Tx
     (hp : precompute S tx prevouts = .ok p) (sc : Bytes) (i ht amount : Int) :
     segwitV0 S sc tx i ht amount (some p) = segwitV0 S sc tx i ht amount none := by
   obtain ⟨a, b, d, e, ha, _, hd, he, rfl⟩ := precompute_ok hp
-  unfold segwitV0
+  unfold segwitV0 segHashPrevouts segHashSequence segHashOutputs
   simp only [Option.map_some, Option.map_none, hashOrPre, ha, hd, he, hash256, bind_pure_comp, Except.map,
     pure, Except.pure, bind, Except.bind]
 
